@@ -12,7 +12,7 @@ from __future__ import annotations
 
 import z3
 
-from vt.loopvc import SArr, SCounter, SDict, SList
+from vt.loopvc import SArr, SCounter, SDict, SDictList, SList
 
 Int = z3.IntSort()
 Bool = z3.BoolSort()
@@ -271,6 +271,68 @@ def sum_by_p_id_contract():
 
     return {"inputs": inputs, "pre": pre, "inv": inv, "post": post, "dict_comprehension": dict_comprehension_contract}
 
+# ------------------------------------------------------------------------------------------
+# fg_id_numpy, stage 1 (the index-building loop): p_id_to_index inverts p_id; p_id_to_p_ids_children[x]
+# lists exactly the persons whose first or second parent pointer is x (sound, complete, never empty)
+# ------------------------------------------------------------------------------------------
+def fg_index_contract():
+    names = ["p_id", "hh_id", "alter", "p_id_einstandspartner", "p_id_elternteil_1", "p_id_elternteil_2"]
+
+    def inputs():
+        N = z3.Int("N")
+        inp = {"N": N}
+        for n in names:
+            inp[n] = SArr(A(n), N, Int)
+        return inp, {"rowof": z3.Function("rowof", Int, Int)}
+
+    def pre(inp, gh):
+        N, p, rowof = inp["N"], inp["p_id"].arr, gh["rowof"]
+        return [
+            ("N >= 0", N >= 0),
+            ("p_id unique", z3.ForAll([i, j], z3.Implies(z3.And(0 <= i, i < N, 0 <= j, j < N, p[i] == p[j]), i == j))),
+            ("rowof inverts p_id", z3.ForAll([i], z3.Implies(z3.And(0 <= i, i < N), rowof(p[i]) == i))),
+        ]
+
+    m = z3.Int("m!")
+
+    def inv(inp, gh, st, k):
+        N, p, e1, e2, rowof = inp["N"], inp["p_id"].arr, inp["p_id_elternteil_1"].arr, inp["p_id_elternteil_2"].arr, gh["rowof"]
+        ix, ch = st["p_id_to_index"], st["p_id_to_p_ids_children"]
+        elem = lambda x_, m_: z3.Select(z3.Select(ch.elems, x_), m_)  # noqa: E731
+        r = lambda x_, m_: rowof(elem(x_, m_))  # noqa: E731
+        return [
+            ("A0 bounds", z3.And(0 <= k, k <= N)),
+            ("A1 every processed person is indexed by its row", z3.ForAll([i], z3.Implies(z3.And(0 <= i, i < k), z3.And(ix.dom[p[i]], ix.val[p[i]] == i)))),
+            ("A2 index keys are processed persons", z3.ForAll([x], z3.Implies(ix.dom[x], z3.And(0 <= ix.val[x], ix.val[x] < k, p[ix.val[x]] == x)))),
+            ("A3 list members are processed persons naming the key as a parent (soundness)",
+             z3.ForAll([x, m], z3.Implies(z3.And(ch.dom[x], 0 <= m, m < ch.lens[x]),
+                                          z3.And(x >= 0, 0 <= r(x, m), r(x, m) < k, p[r(x, m)] == elem(x, m), z3.Or(e1[r(x, m)] == x, e2[r(x, m)] == x))))),
+            ("A4 lists in the dict are never empty", z3.ForAll([x], z3.Implies(ch.dom[x], ch.lens[x] >= 1))),
+            ("A5a every processed first-parent pointer is recorded (completeness)",
+             z3.ForAll([i], z3.Implies(z3.And(0 <= i, i < k, e1[i] >= 0), z3.And(ch.dom[e1[i]], z3.Exists([m], z3.And(0 <= m, m < ch.lens[e1[i]], elem(e1[i], m) == p[i])))))),
+            ("A5b every processed second-parent pointer is recorded (completeness)",
+             z3.ForAll([i], z3.Implies(z3.And(0 <= i, i < k, e2[i] >= 0), z3.And(ch.dom[e2[i]], z3.Exists([m], z3.And(0 <= m, m < ch.lens[e2[i]], elem(e2[i], m) == p[i])))))),
+        ]
+
+    def post(inp, gh, st):
+        N, p, e1, e2 = inp["N"], inp["p_id"].arr, inp["p_id_elternteil_1"].arr, inp["p_id_elternteil_2"].arr
+        ix, ch = st["p_id_to_index"], st["p_id_to_p_ids_children"]
+        elem = lambda x_, m_: z3.Select(z3.Select(ch.elems, x_), m_)  # noqa: E731
+        return [
+            ("Q1 p_id_to_index[p_id[i]] = i for every row, and has no other key",
+             z3.And(z3.ForAll([i], z3.Implies(z3.And(0 <= i, i < N), z3.And(ix.dom[p[i]], ix.val[p[i]] == i))),
+                    z3.ForAll([x], z3.Implies(ix.dom[x], z3.And(0 <= ix.val[x], ix.val[x] < N, p[ix.val[x]] == x))))),
+            ("Q2 every member of children[x] is an existing person one of whose parent pointers is x (so the later look-up p_id_to_index[child] cannot fail)",
+             z3.ForAll([x, m], z3.Implies(z3.And(ch.dom[x], 0 <= m, m < ch.lens[x]),
+                                          z3.And(ix.dom[elem(x, m)], z3.Or(e1[ix.val[elem(x, m)]] == x, e2[ix.val[elem(x, m)]] == x))))),
+            ("Q3 x has an entry iff some row names x (>= 0) as a parent; then that person is in the list",
+             z3.And(z3.ForAll([i], z3.Implies(z3.And(0 <= i, i < N, e1[i] >= 0), z3.And(ch.dom[e1[i]], z3.Exists([m], z3.And(0 <= m, m < ch.lens[e1[i]], elem(e1[i], m) == p[i]))))),
+                    z3.ForAll([i], z3.Implies(z3.And(0 <= i, i < N, e2[i] >= 0), z3.And(ch.dom[e2[i]], z3.Exists([m], z3.And(0 <= m, m < ch.lens[e2[i]], elem(e2[i], m) == p[i]))))),
+                    z3.ForAll([x], z3.Implies(ch.dom[x], z3.And(x >= 0, ch.lens[x] >= 1))))),
+        ]
+
+    return {"function": "fg_id_numpy", "stage_only": True, "n_loops": 2, "inputs": inputs, "pre": pre, "inv": inv, "post": post}
+
 
 KERNELS = {
     "eg_id_numpy": couple_contract("p_id", "p_id_einstandspartner", "p_id_to_eg_id", "next_eg_id"),
@@ -279,6 +341,7 @@ KERNELS = {
     "bg_id_numpy": bg_contract(),
     "wthh_id_numpy": wthh_contract(),
     "sum_by_p_id": sum_by_p_id_contract(),
+    "fg_id_numpy#index": fg_index_contract(),
 }
 
 
@@ -291,4 +354,5 @@ STATE_VARS = {
     "bg_id_numpy": [("counter", "counter"), ("result", "list")],
     "wthh_id_numpy": [("result", "list")],
     "sum_by_p_id": [("out", "arr"), ("map_p_id_to_position", "dict")],
+    "fg_id_numpy#index": [("p_id_to_index", "dict"), ("p_id_to_p_ids_children", "dictlist")],
 }
